@@ -33,7 +33,7 @@ def _lm_case(draw, tier, dense=False):
         # tables big enough that trie offsets leave the 8-bit range
         V, n = draw(st.sampled_from([(3, 4), (4, 4), (5, 4), (6, 3), (7, 3), (4, 3), (5, 3)]))
         # "mid": more than 256 trie nodes although every level pair still fits 8-bit offsets
-        profile = draw(st.sampled_from(["free", "free", "mid_a", "mid_b"]))
+        profile = draw(st.sampled_from(["free", "free", "mid_a", "mid_b", "mid_c", "mid_c"]))
     else:
         V = draw(st.integers(1, 4))
         n = draw(st.sampled_from([1, 2, 2, 3, 3, 3, 4, 4]))
@@ -45,6 +45,9 @@ def _lm_case(draw, tier, dense=False):
     elif profile == "mid_b":    # 6 symbols, order 3: levels 6, 36, 216
         n = 3
         V = 6 if sos_kind == "in" else 5
+    elif profile == "mid_c":    # 7 symbols, order 4: levels 7, 49, ~200, ~50: parents of 4-grams sit beyond index 255
+        n = 4
+        V = 7 if sos_kind == "in" else 6
     if sos_kind == "in":
         sos = draw(st.integers(0, V - 1))
     elif sos_kind == "V":
@@ -58,19 +61,28 @@ def _lm_case(draw, tier, dense=False):
     for m in range(1, n + 1):
         total = base ** m
         last = m == n
-        use_dense = dense and m >= n - 1 and total >= 60
+        use_dense = dense and m >= n - 1 and total >= 60 and not (profile == "mid_c" and last)
         if use_dense:
+            mid_c = profile == "mid_c"
             tables.append(draw(st.fixed_dictionaries({
-                "excluded": st.lists(st.integers(0, total - 1), max_size=min(total - 1, 12), unique=True),
-                "a": st.integers(1, 64), "b": st.integers(0, 64), "c": st.integers(0, 64),
+                "excluded": st.lists(st.integers(0, total - 1), max_size=0 if mid_c else min(total - 1, 12), unique=True),
+                # mid_c: a is coprime to 7, so exactly `count` trigrams are kept
+                "a": st.sampled_from([1, 2, 3, 4, 5, 6, 8, 9, 10, 11, 12, 13]) if mid_c else st.integers(1, 64),
+                "b": st.integers(0, 64), "c": st.integers(0, 64),
                 "inf_mod": st.sampled_from([0, 0, 7, 13]),
                 "keep_mod": (st.sampled_from([1, 1, 2, 3, 6]) if profile == "free"
                              else st.just(6 if (profile == "mid_a" and last) else 1)),
+                "keep_lt": st.just(1),
+                "count": st.just(200) if mid_c else st.none(),
             })))
         else:
-            cap = min(total, 12 if not big else 30)
+            cap = min(total, 7 if profile == "mid_c" else (12 if not big else 30))
+            index = st.integers(0, total - 1)
+            if profile == "mid_c" and last:
+                # 4-grams (a, b, 6, 6): their parents are the last trigram nodes of the reverse trie
+                index = st.one_of(index, st.integers(0, 48).map(lambda k: k * 49 + 48))
             ents = draw(st.lists(
-                st.tuples(st.integers(0, total - 1), _p8(), _B8),
+                st.tuples(index, _p8(), _B8),
                 min_size=1 if last else 0, max_size=cap, unique_by=lambda e: e[0]))
             tables.append({"entries": [list(e) for e in ents]})
     Tmax = 6 if not big else 9
@@ -228,8 +240,13 @@ def _lm_check(case):
         classes.append("explicit_oov_sos_in_history")
     if lm.offsets.numel() and lm.offsets.dtype != torch.uint8:
         classes.append("offsets_wider_than_8_bit")
-    elif lm.logps.numel() > 256:
-        classes.append("more_than_256_nodes_with_8_bit_offsets")
+    sizes = K.level_sizes(tables)
+    if n >= 3:
+        sizes[0] = len(symbols)
+        fits8 = max(sizes[m] + sizes[m - 1] - 1 for m in range(1, n)) <= 255
+        # index of the last node of level n-1 (each level is followed by one dummy node)
+        if fits8 and sum(sizes[:n - 1]) + (n - 2) > 255:
+            classes.append("parent_index_beyond_255_with_8_bit_offsets")
     for m in range(1, n):
         # an m-gram needed as the suffix of a listed (m+1)-gram but not listed itself
         lower = tables[m - 1]
@@ -248,7 +265,7 @@ subcheck("C06", "katz", _lm_strategy, 700, 20000,
 
 subcheck("C06", "katz_dense", _dense_strategy, 60, 1500,
          doc="nearly complete tables of order 2..4 (up to 1400 n-grams, offsets beyond 8 bits): same comparisons",
-         required_classes=["offsets_wider_than_8_bit"])(_lm_check)
+         required_classes=["offsets_wider_than_8_bit", "parent_index_beyond_255_with_8_bit_offsets"])(_lm_check)
 
 
 # ------------------------------------------------------------------ ARPA
